@@ -372,6 +372,14 @@ Definition pv_opt (v : pval) : option Z := match v with PInt z => Some z | _ => 
 Definition node_view (s : st) := map (fun n => match n with Some x => pv_opt (n_id x) | None => None end) (nodes s).
 Definition buf_view (s : st) := map (fun n => match n with Some x => pv_opt (b_num x) | None => None end) (bufs s).
 Definition bus_view (s : st) := map (fun n => match n with Some x => pv_opt (u_index x) | None => None end) (buses s).
+Definition chain_b (l : list (Z * Z)) : bool :=
+  (fix go (lo : Z) (l : list (Z * Z)) : bool :=
+     match l with [] => true | (a, n) :: t => (lo <=? a) && (1 <=? n) && go (a + n) t end) (-1) l.
+Fixpoint states (V : variant) (s : st) (ops : list op) : list st :=
+  match ops with [] => [s] | o :: t => s :: states V (fst (fst (step V s o))) t end.
+(* the hypothesis [chain] of the free_all theorem, on the observed run: the blocks the allocators handed out never overlap *)
+Definition blocks_disjoint (V : variant) (c : case) : bool :=
+  forallb (fun s => chain_b (bblocks s) && chain_b (cblocks s) && chain_b (ablocks s)) (states V (init_of c) (fst (fst (fst (fst (fst c)))))).
 Definition agrees (V : variant) (c : case) : bool :=
   let '(ops, obs, fin, objs, valid, _) := c in
   let '(r, s) := run V (init_of c) ops in
@@ -429,6 +437,7 @@ def monitors(h, out, default_group=1):
     user_bufs, user_buses = set(), set()
     bus_blocks = set()
     bus_ever = set()
+    node_allocated = set()
     nbuf = 0
     nbus = 0
     node_ids = []               # creation index -> node id (None: constructor raised)
@@ -445,6 +454,17 @@ def monitors(h, out, default_group=1):
     for i, (op, st) in enumerate(zip(ops, steps)):
         o = op['op']
         for a in st['alloc']:
+            # ids handed out by the allocators must not belong to a block that is still allocated (two live objects sharing an id)
+            if a[0] == 'node':
+                if a[1] in node_allocated:
+                    bad.append((None, 'op %d (%s): the node id allocator handed out %s a second time' % (i, o, a[1])))
+                node_allocated.add(a[1])
+            elif a[1] is not None:
+                cur = buf_blocks if a[0] == 'buf' else set((b[1], b[2]) for b in bus_blocks if b[0] == a[0])
+                for b in sorted(cur):
+                    if a[1] < b[0] + b[1] and b[0] < a[1] + a[2]:
+                        bad.append((None, 'op %d (%s): the %s allocator handed out ids %d..%d while block (%d, %d) is still allocated: two live objects own the same id' % (
+                            i, o, a[0], a[1], a[1] + a[2] - 1, b[0], b[1])))
             if a[0] == 'node':
                 node_known.add(a[1])
             elif a[0] == 'buf' and a[1] is not None:
@@ -826,6 +846,19 @@ FIXED_HISTORIES = [
         {'op': 'bus_getn', 'u': 0, 'count': None},
         {'op': 'bind_enter'}, {'op': 'n_run', 'n': 0, 'flag': {'v': 'b', 'x': False}}, {'op': 'bind_exit'},
         {'op': 'b_free', 'b': 0, 'compl': None}, {'op': 'bus_free', 'u': 0}]},
+    {'cls': 'valid', 'tags': ['fixed:fragmentation'], 'ops': [
+        {'op': 'b_consecutive', 'n': 3, 'frames': 8, 'channels': 1, 'compl': None},
+        {'op': 'b_new', 'frames': 8, 'channels': 1, 'compl': None},
+        {'op': 'b_consecutive', 'n': 2, 'frames': 8, 'channels': 1, 'compl': None},
+        {'op': 'b_new', 'frames': 8, 'channels': 1, 'compl': None},
+        {'op': 'bus_new', 'audio': False, 'channels': 4}, {'op': 'bus_new', 'audio': False, 'channels': 1},
+        {'op': 'b_free', 'b': 0, 'compl': None}, {'op': 'b_free', 'b': 4, 'compl': None}, {'op': 'bus_free', 'u': 0},
+        {'op': 'b_new', 'frames': 8, 'channels': 1, 'compl': None}, {'op': 'b_new', 'frames': 8, 'channels': 1, 'compl': None},
+        {'op': 'b_new', 'frames': 8, 'channels': 1, 'compl': None}, {'op': 'b_consecutive', 'n': 2, 'frames': 8, 'channels': 1, 'compl': None},
+        {'op': 'b_new', 'frames': 8, 'channels': 1, 'compl': None}, {'op': 'b_new', 'frames': 8, 'channels': 1, 'compl': None},
+        {'op': 'bus_new', 'audio': False, 'channels': 2}, {'op': 'bus_new', 'audio': False, 'channels': 1},
+        {'op': 'bus_new', 'audio': False, 'channels': 1}, {'op': 'bus_new', 'audio': False, 'channels': 2},
+        {'op': 'b_free_all'}]},
     {'cls': 'valid', 'tags': ['fixed:F15'], 'ops': [
         {'op': 'b_new', 'frames': 16, 'channels': 1, 'compl': None},
         {'op': 'b_free', 'b': 0, 'compl': None},
@@ -1195,7 +1228,7 @@ def correspond(ctx):
         c.count('class:' + h['cls'])
         if any(st['ev'] for st in o['steps']):
             c.nontriv(h['ops'])
-    body = BODY_DEFS + '\nEval vm_compute in bad_idx (fun c => agrees repaired c && observed_conform c) cases.'
+    body = BODY_DEFS + '\nEval vm_compute in bad_idx (fun c => agrees repaired c && observed_conform c && blocks_disjoint repaired c) cases.'
     bad, errs = fw.check_shards(ctx, 'hist', HEADER, items, body, shard=60)
     c.evaluations = len(items)
     # how many of the valid histories lie inside the domain of the theorems (wf_ops of proofs/C17_run.v)
